@@ -40,6 +40,7 @@ import (
 	"github.com/oasisprotocol/oasis-core/go/common/cbor"
 	"github.com/oasisprotocol/oasis-core/go/common/crypto/signature"
 	"github.com/oasisprotocol/oasis-core/go/common/quantity"
+	consensus "github.com/oasisprotocol/oasis-core/go/consensus/api"
 	"github.com/oasisprotocol/oasis-core/go/consensus/api/transaction"
 	genesis "github.com/oasisprotocol/oasis-core/go/genesis/api"
 	staking "github.com/oasisprotocol/oasis-core/go/staking/api"
@@ -108,6 +109,7 @@ type absTx struct {
 	Env      bool
 	Addr     string // staking address (hex) of the claimed signer
 	SigValid bool
+	Black    bool // the claimed public key is blacklisted
 	TxOK     bool
 	Nonce    uint64
 	HasFee   bool
@@ -125,6 +127,24 @@ const (
 	gasByte     = 1
 	minTransfer = 10
 )
+
+// Process-wide registrations (the blacklist and the reserved-address set are
+// globals of oasis-core): one harness key whose public key is blacklisted and
+// one whose staking address is reserved (the public key stays usable, so the
+// reserved-address branch of AuthenticateAndPayFees is reached with a valid signature).
+var (
+	blackKey = muxdrv.NewKey("verif-auth/blacklisted")
+	resvKey  = muxdrv.NewKey("verif-auth/reserved")
+)
+
+func init() {
+	if err := blackKey.Public().Blacklist(); err != nil {
+		panic(err)
+	}
+	if err := resvKey.Address().Reserve(); err != nil {
+		panic(err)
+	}
+}
 
 type ref struct {
 	nonce map[string]uint64
@@ -150,7 +170,10 @@ func (r *ref) apply(a *absTx) (bool, bool) {
 	if r.p.maxTxSize > 0 && uint64(a.Len) > r.p.maxTxSize {
 		return false, false
 	}
-	if !a.Env || !a.SigValid || !a.TxOK || a.Method < 3 {
+	if !a.Env || !a.SigValid || a.Black || !a.TxOK || a.Method < 3 {
+		return false, false
+	}
+	if a.Addr == resvKey.Address().String() {
 		return false, false
 	}
 	if r.nonce[a.Addr] != a.Nonce {
@@ -202,6 +225,9 @@ func (r *ref) apply(a *absTx) (bool, bool) {
 	if a.Method == 3 && a.To == a.Addr {
 		return true, true
 	}
+	if a.Method == 3 && a.To == resvKey.Address().String() {
+		return true, false // state.Account(reserved address) fails (transactions.go:118)
+	}
 	if r.bal[a.Addr]-amt < r.p.minTransact {
 		return true, false
 	}
@@ -237,8 +263,9 @@ func abstract(raw []byte, chain string) (*absTx, bool) {
 	a.Env = true
 	a.Addr = staking.NewAddress(st.Signature.PublicKey).String()
 	a.SigValid = indepValid(st.Signature.PublicKey, st.Blob, st.Signature.Signature[:], chain)
+	a.Black = st.Signature.PublicKey.Equal(blackKey.Public())
 	real := st.Signature.Verify(transaction.SignatureContext, st.Blob)
-	agree := real == a.SigValid
+	agree := real == (a.SigValid && !a.Black) && a.Black == st.Signature.PublicKey.IsBlacklisted()
 	var tx transaction.Transaction
 	if err := cbor.Unmarshal(st.Blob, &tx); err != nil {
 		return a, agree
@@ -299,7 +326,7 @@ func classify(t *muxdrv.TxResult) int {
 		return 13
 	case t.Codespace == "staking":
 		return 20
-	case strings.Contains(l, "out of gas") || l == "insufficient balance":
+	case strings.Contains(l, "out of gas") || l == "insufficient balance" || strings.Contains(l, "invalid account address"):
 		return 20
 	case strings.Contains(l, "cbor") || strings.Contains(l, "EOF") || strings.Contains(l, "malformed") || strings.Contains(l, "unexpected"):
 		return 2
@@ -399,6 +426,7 @@ func buildPlan(seed uint64, nblocks, ntx int, g *muxdrv.Genesis, p *plan) {
 		k := muxdrv.NewKey(fmt.Sprintf("verif-auth/%d/unfunded/%d", seed, i))
 		signers = append(signers, &signer{key: k, addr: k.Address(), idx: -1})
 	}
+	signers = append(signers, &signer{key: blackKey, addr: blackKey.Address(), idx: -1}, &signer{key: resvKey, addr: resvKey.Address(), idx: -1})
 	rf := newRef(g, p)
 	var pool [][]byte // byte strings that passed authentication in the reference at some point
 	// every correctly signed byte string generated so far (whatever became of it), with its signer
@@ -445,7 +473,9 @@ func buildPlan(seed uint64, nblocks, ntx int, g *muxdrv.Genesis, p *plan) {
 	freshTx := func(s *signer, nonce uint64) *transaction.Transaction {
 		to := signers[r.Intn(6)].addr
 		amt := uint64(r.Range(10, 900))
-		switch r.Intn(12) {
+		switch r.Intn(14) {
+		case 12:
+			to = resvKey.Address() // a reserved address as recipient
 		case 0:
 			amt = uint64(r.Intn(10)) // under the minimum
 		case 1:
@@ -454,7 +484,9 @@ func buildPlan(seed uint64, nblocks, ntx int, g *muxdrv.Genesis, p *plan) {
 			to = s.addr // self
 		}
 		f := fee()
-		if s.idx < 0 || s.idx == nAccounts-1 {
+		if s.key == resvKey || s.key == blackKey {
+			f = muxdrv.Fee(0, muxdrv.DefaultGas)
+		} else if s.idx < 0 || s.idx == nAccounts-1 {
 			if r.Chance(70) {
 				f = muxdrv.Fee(0, muxdrv.DefaultGas)
 			}
@@ -465,7 +497,7 @@ func buildPlan(seed uint64, nblocks, ntx int, g *muxdrv.Genesis, p *plan) {
 		return muxdrv.TxTransfer(nonce, f, to, amt)
 	}
 	refNonce := func(s *signer) uint64 { return rf.nonce[s.addr.String()] }
-	attacker := signers[len(signers)-1]
+	attacker := signers[8]
 	// splice: (blob', pk, sig) -- public key and signature of a genuine envelope of
 	// signer src on a different, never-signed, well-formed body carrying src's current nonce
 	splice := func(srcRaw []byte, src *signer) []byte {
@@ -591,9 +623,29 @@ func buildPlan(seed uint64, nblocks, ntx int, g *muxdrv.Genesis, p *plan) {
 			case k < 98: // valid envelope, body of the wrong shape
 				tx := transaction.NewTransaction(refNonce(s), fee(), staking.MethodTransfer, "not a transfer")
 				add = []genTx{{Raw: muxdrv.Sign(s.key, tx), Kind: "badbody"}}
-			default: // oversized for the small limit, fine otherwise
-				tx := transaction.NewTransaction(refNonce(s), fee(), transaction.MethodName("foo."+strings.Repeat("x", 500)), nil)
-				add = []genTx{{Raw: muxdrv.Sign(s.key, tx), Kind: "long"}}
+			default: // around the size limit: exactly MaxTxSize, MaxTxSize+1, or just long
+				target := int(p.maxTxSize) + r.Intn(2)
+				kind := []string{"size-max", "size-max+1"}[target-int(p.maxTxSize)]
+				pad := 500
+				if p.maxTxSize > 2000 && r.Chance(50) {
+					kind = "long"
+				} else {
+					pad = target - 300
+				}
+				var raw []byte
+				f := okFee()
+				n0 := refNonce(s)
+				for tries := 0; tries < 40; tries++ {
+					raw = muxdrv.Sign(s.key, transaction.NewTransaction(n0, f, transaction.MethodName("foo."+strings.Repeat("x", pad)), nil))
+					if kind == "long" || len(raw) == target {
+						break
+					}
+					pad += target - len(raw)
+				}
+				if kind != "long" && len(raw) != target {
+					kind = "long"
+				}
+				add = []genTx{{Raw: raw, Kind: kind}}
 			}
 			for _, t := range add {
 				a, _ := abstract(t.Raw, chain)
@@ -646,6 +698,7 @@ type runOut struct {
 	blocks     []blockOut
 	violations []map[string]any
 	findings   []map[string]any // same shape plus "key"
+	stats      []string
 }
 
 // KeyMalleable: an altered byte string decodes to the SAME (blob, public key,
@@ -780,6 +833,7 @@ func runHistory(seed uint64, nblocks, ntx, upto int, drop [][2]int) (out *runOut
 				addrOf[a.To] = x.To
 			}
 		}
+		delete(tracked, resvKey.Address().String()) // reserved accounts cannot be queried (invalid account address)
 		var tl []string
 		for a := range tracked {
 			tl = append(tl, a)
@@ -902,42 +956,7 @@ func runHistory(seed uint64, nblocks, ntx, upto int, drop [][2]int) (out *runOut
 			nontriv = true
 		}
 		// ---- K: the case for the Coq model
-		var idl, pn, pb, qn, qb, ks []string
-		for _, a := range tl {
-			id := idOf(a)
-			idl = append(idl, strconv.Itoa(id))
-			pn = append(pn, fmt.Sprintf("(%d, %s)", id, pre[a][0]))
-			pb = append(pb, fmt.Sprintf("(%d, %s)", id, pre[a][1]))
-			qn = append(qn, post[a][0])
-			qb = append(qb, post[a][1])
-		}
-		for _, a := range abs {
-			txs := "None"
-			if a.TxOK {
-				feeS := "None"
-				if a.HasFee {
-					feeS = fmt.Sprintf("(Some (%s, %d))", a.FeeAmt.String(), a.FeeGas)
-				}
-				to, amt := 0, "0"
-				if a.BodyOK {
-					if a.Method == 3 {
-						to = idOf(a.To)
-					}
-					amt = a.Amount.String()
-				}
-				txs = fmt.Sprintf("(Some {| kt_nonce := %d; kt_fee := %s; kt_method := %d; kt_to := %d; kt_amount := %s; kt_body_ok := %s |})",
-					a.Nonce, feeS, a.Method, to, amt, coqout.Bool(a.BodyOK))
-			}
-			pk := 0
-			if a.Env {
-				pk = idOf(a.Addr)
-			}
-			ks = append(ks, fmt.Sprintf("{| k_len := %d; k_env := %s; k_pk := %d; k_sigvalid := %s; k_tx := %s |}", a.Len, coqout.Bool(a.Env), pk, coqout.Bool(a.SigValid), txs))
-		}
-		params := fmt.Sprintf("{| p_max_tx_size := %d; p_min_transact := %d; p_min_transfer := %d; p_gas_byte := %d; p_gas_transfer := %d; p_gas_burn := %d; p_min_gas_price := %d |}",
-			p.maxTxSize, p.minTransact, minTransfer, gasByte, gasTransfer, gasBurn, p.minGasPrice)
-		coq := fmt.Sprintf("((%s, %s, %s, %s, %s), (%s, %s, %s))", params, coqout.List(idl), coqout.List(pn), coqout.List(pb), coqout.List(ks),
-			coqout.List(classes), coqout.List(qn), coqout.List(qb))
+		coq := coqBlock(p, tl, pre, post, abs, classes, idOf)
 		d := Desc{Mode: "deliver", Seed: seed, Blocks: nblocks, Txs: ntx, Block: b, Drop: drop}
 		for i, t := range gts {
 			d.Kinds = append(d.Kinds, t.Kind+"/"+classes[i])
@@ -951,7 +970,298 @@ func runHistory(seed uint64, nblocks, ntx, upto int, drop [][2]int) (out *runOut
 		}
 		out.blocks = append(out.blocks, blockOut{desc: d, coq: coq, nontriv: nontriv, stats: stats})
 	}
+	// ---- the system (block metadata) method submitted by a user: never through the
+	// mempool, and a proposal containing it is rejected; no account effect either way
+	if upto >= nblocks-1 && len(drop) == 0 {
+		a0 := g.Accounts[0]
+		um := muxdrv.Sign(a0.Key, consensus.NewBlockMetadataTx(&consensus.BlockMetadata{EventsRoot: make([]byte, 32)}))
+		for _, rp := range []*muxdrv.Replica{disk, prop} {
+			resp, err := rp.CheckTx(um, false)
+			if err != nil {
+				viol(nblocks-1, "CheckTx of a user-signed consensus.Meta transaction panicked: "+err.Error(), nil)
+			} else if resp.Code == 0 {
+				viol(nblocks-1, "CheckTx accepted a user-signed consensus.Meta (system) transaction", map[string]any{"tx": hex.EncodeToString(um)})
+			} else {
+				out.stats = append(out.stats, "system-method:checktx-rejected")
+			}
+		}
+		in := c.NewBlock(g.Validators[0].ConsAddr, muxdrv.VotesAll, nil)
+		ok, err := disk.ProcessProposal(in, [][]byte{um})
+		switch {
+		case err != nil:
+			viol(nblocks-1, "ProcessProposal with a user-signed consensus.Meta transaction let a panic escape: "+err.Error(), nil)
+		case ok:
+			viol(nblocks-1, "a proposal containing a user-signed consensus.Meta transaction was accepted", map[string]any{"tx": hex.EncodeToString(um)})
+		default:
+			out.stats = append(out.stats, "system-method:proposal-rejected")
+		}
+		acc, err := disk.Account(0, a0.Address)
+		if err != nil {
+			panic(err)
+		}
+		if acc.General.Nonce != rf.nonce[a0.Address.String()] {
+			viol(nblocks-1, "a user-signed system transaction changed the signer's nonce", nil)
+		}
+	}
 	return out
+}
+
+// coqBlock renders one block as a case of Verif.Auth.Corr.run_block.
+func coqBlock(p *plan, tl []string, pre, post map[string][2]string, abs []*absTx, classes []string, idOf func(string) int) string {
+	var idl, pn, pb, qn, qb, ks []string
+	for _, a := range tl {
+		id := idOf(a)
+		idl = append(idl, strconv.Itoa(id))
+		pn = append(pn, fmt.Sprintf("(%d, %s)", id, pre[a][0]))
+		pb = append(pb, fmt.Sprintf("(%d, %s)", id, pre[a][1]))
+		qn = append(qn, post[a][0])
+		qb = append(qb, post[a][1])
+	}
+	for _, a := range abs {
+		txs := "None"
+		if a.TxOK {
+			feeS := "None"
+			if a.HasFee {
+				feeS = fmt.Sprintf("(Some (%s, %d))", a.FeeAmt.String(), a.FeeGas)
+			}
+			to, amt := 0, "0"
+			if a.BodyOK {
+				if a.Method == 3 {
+					to = idOf(a.To)
+				}
+				amt = a.Amount.String()
+			}
+			txs = fmt.Sprintf("(Some {| kt_nonce := %d; kt_fee := %s; kt_method := %d; kt_to := %d; kt_amount := %s; kt_body_ok := %s |})",
+				a.Nonce, feeS, a.Method, to, amt, coqout.Bool(a.BodyOK))
+		}
+		pk := 0
+		if a.Env {
+			pk = idOf(a.Addr)
+		}
+		ks = append(ks, fmt.Sprintf("{| k_len := %d; k_env := %s; k_pk := %d; k_black := %s; k_sigvalid := %s; k_tx := %s |}", a.Len, coqout.Bool(a.Env), pk, coqout.Bool(a.Black), coqout.Bool(a.SigValid), txs))
+	}
+	params := fmt.Sprintf("{| p_max_tx_size := %d; p_min_transact := %d; p_min_transfer := %d; p_gas_byte := %d; p_gas_transfer := %d; p_gas_burn := %d; p_min_gas_price := %d; p_reserved := [%d] |}",
+		p.maxTxSize, p.minTransact, minTransfer, gasByte, gasTransfer, gasBurn, p.minGasPrice, idOf(resvKey.Address().String()))
+	return fmt.Sprintf("((%s, %s, %s, %s, %s), (%s, %s, %s))", params, coqout.List(idl), coqout.List(pn), coqout.List(pb), coqout.List(ks),
+		coqout.List(classes), coqout.List(qn), coqout.List(qb))
+}
+
+// ---------------------------------------------------------------------------
+// -mode sweep: every bit position of one short signed transfer
+// ---------------------------------------------------------------------------
+
+// SweepDesc: the bit positions of the swept envelope delivered in one block of a fresh chain.
+type SweepDesc struct {
+	Mode string `json:"mode"`
+	Seed uint64 `json:"seed"`
+	Bits []int  `json:"bits"`
+	// WithOrig: the unaltered envelope follows the altered ones in the same block
+	WithOrig bool `json:"with_orig"`
+}
+
+func sweepPlan(seed uint64) *plan {
+	return &plan{seed: seed, maxTxSize: 32768, initNonce: map[int]uint64{}}
+}
+
+// sweepBlock delivers the altered envelopes (and optionally the original) as the first
+// block of a fresh chain and returns the K case, the per-flip classes and the effects.
+func sweepBlock(d SweepDesc, sum *coqout.Summary) (coq string, viols []map[string]any, finds []map[string]any) {
+	viol := func(what string) {
+		viols = append(viols, map[string]any{"what": what, "case": d})
+	}
+	defer func() {
+		if e := recover(); e != nil {
+			viol(fmt.Sprintf("harness or implementation panic: %v", e))
+		}
+	}()
+	p := sweepPlan(d.Seed)
+	g, err := newGenesis(p)
+	if err != nil {
+		panic(err)
+	}
+	prop, err := muxdrv.NewReplica(g, muxdrv.ReplicaConfig{Name: "p", Identity: g.Validators[0].Identity})
+	if err != nil {
+		panic(err)
+	}
+	defer prop.Close()
+	a0, a1 := g.Accounts[0], g.Accounts[1]
+	orig := muxdrv.Sign(a0.Key, muxdrv.TxTransfer(0, muxdrv.Fee(10, muxdrv.DefaultGas), a1.Address, 100))
+	origID := envelopeID(orig)
+	var raws [][]byte
+	for _, b := range d.Bits {
+		raws = append(raws, muxdrv.FlipBit(orig, b))
+	}
+	if d.WithOrig {
+		raws = append(raws, orig)
+	}
+	rf := newRef(g, p)
+	chain := g.ChainContext
+	ids := map[string]int{}
+	idOf := func(a string) int {
+		if v, ok := ids[a]; ok {
+			return v
+		}
+		ids[a] = len(ids) + 1
+		return ids[a]
+	}
+	addrOf := map[string]staking.Address{a0.Address.String(): a0.Address, a1.Address.String(): a1.Address}
+	tracked := map[string]bool{a0.Address.String(): true, a1.Address.String(): true}
+	var abs []*absTx
+	for i, raw := range raws {
+		a, agree := abstract(raw, chain)
+		if !agree {
+			viol(fmt.Sprintf("tx %d: real verifier and independent recomputation disagree", i))
+		}
+		abs = append(abs, a)
+		if a.Env && a.Addr != resvKey.Address().String() {
+			var st transaction.SignedTransaction
+			_ = cbor.Unmarshal(raw, &st)
+			tracked[a.Addr] = true
+			addrOf[a.Addr] = staking.NewAddress(st.Signature.PublicKey)
+		}
+		if a.BodyOK && a.Method == 3 && a.To != resvKey.Address().String() {
+			var st transaction.SignedTransaction
+			var tx transaction.Transaction
+			var x staking.Transfer
+			_ = cbor.Unmarshal(raw, &st)
+			_ = cbor.Unmarshal(st.Blob, &tx)
+			_ = cbor.Unmarshal(tx.Body, &x)
+			if staking.Address(x.To).IsValid() {
+				tracked[a.To] = true
+				addrOf[a.To] = x.To
+			}
+		}
+	}
+	var tl []string
+	for a := range tracked {
+		tl = append(tl, a)
+	}
+	sort.Strings(tl)
+	pre := map[string][2]string{}
+	for _, a := range tl {
+		acc := g.Doc.Staking.Ledger[addrOf[a]]
+		if acc == nil {
+			acc = &staking.Account{}
+		}
+		pre[a] = [2]string{strconv.FormatUint(acc.General.Nonce, 10), acc.General.Balance.String()}
+	}
+	c := muxdrv.NewChain(g)
+	in := c.NewBlock(g.Validators[0].ConsAddr, muxdrv.VotesAll, nil)
+	list, err := prop.Propose(in, raws)
+	if err != nil || len(list) != len(raws)+1 {
+		viol(fmt.Sprintf("PrepareProposal failed: %v (%d of %d)", err, len(list), len(raws)))
+		return
+	}
+	res, err := prop.Process(in, list)
+	if err != nil {
+		viol("block execution: " + err.Error())
+		return
+	}
+	post := map[string][2]string{}
+	for _, a := range tl {
+		acc, err := prop.Account(0, addrOf[a])
+		if err != nil {
+			panic(err)
+		}
+		post[a] = [2]string{strconv.FormatUint(acc.General.Nonce, 10), acc.General.Balance.String()}
+	}
+	var classes []string
+	for i, a := range abs {
+		cl := classify(&res.TxResults[i])
+		classes = append(classes, strconv.Itoa(cl))
+		au, ok := rf.apply(a)
+		isOrig := d.WithOrig && i == len(raws)-1
+		if isOrig {
+			sum.Count("sweep-original", "class-"+strconv.Itoa(cl))
+			continue
+		}
+		same := envelopeID(raws[i]) == origID
+		switch {
+		case cl == 99:
+			viol(fmt.Sprintf("bit %d: unclassified response %q", d.Bits[i], res.TxResults[i].Log))
+		case cl == 0 && same || au && same:
+			sum.Count("sweep", "same-decoded-envelope-took-effect")
+			finds = append(finds, map[string]any{"key": KeyMalleable,
+				"what": fmt.Sprintf("bit %d of the swept transfer envelope flipped: decodes to the same (blob, public key, signature) and took effect (class %d)", d.Bits[i], cl),
+				"case": d, "tx": hex.EncodeToString(raws[i]), "orig": hex.EncodeToString(orig)})
+		case cl == 0 || au || ok:
+			sum.Count("sweep", "VIOLATION")
+			viol(fmt.Sprintf("bit %d of the swept transfer envelope flipped: took effect (class %d, reference authenticated=%v) although it does not decode to the signed content", d.Bits[i], cl, au))
+		default:
+			sum.Count("sweep", "rejected-class-"+strconv.Itoa(cl))
+		}
+	}
+	for _, a := range tl {
+		want := [2]string{strconv.FormatUint(rf.nonce[a], 10), strconv.FormatUint(rf.bal[a], 10)}
+		if post[a] != want {
+			viol(fmt.Sprintf("account %s after the block: implementation nonce/balance %v, reference %v", a, post[a], want))
+		}
+	}
+	coq = coqBlock(p, tl, pre, post, abs, classes, idOf)
+	return
+}
+
+func sweepMain(seed uint64, out string, stride, batch int, replay *SweepDesc) {
+	hdr := "From Verif Require Import Lib.Base Auth.Model Auth.Corr Gen.SigContexts.\n"
+	w := coqout.NewWriter(out, hdr, "run_block chain_separator tx_context", "kout_eqb", 4)
+	sum := coqout.NewSummary("one case = one block of a fresh chain holding single-bit alterations of ONE signed staking.Transfer envelope (every stride-th bit position; stride 1 = all), optionally followed by the original; alterations that the harness' decoder maps to a different or no envelope are batched, those it maps to the same (blob, key, signature) get a chain of their own; non-trivial = the block contains at least one alteration; distinct = distinct bit sets")
+	t0 := time.Now()
+	var descs []SweepDesc
+	if replay != nil {
+		descs = []SweepDesc{*replay}
+	} else {
+		p := sweepPlan(seed)
+		g, err := newGenesis(p)
+		if err != nil {
+			panic(err)
+		}
+		orig := muxdrv.Sign(g.Accounts[0].Key, muxdrv.TxTransfer(0, muxdrv.Fee(10, muxdrv.DefaultGas), g.Accounts[1].Address, 100))
+		origID := envelopeID(orig)
+		sum.Extra["envelope_bytes"] = len(orig)
+		var cur []int
+		nbits := 0
+		for b := int(seed % uint64(stride)); b < 8*len(orig); b += stride {
+			nbits++
+			if envelopeID(muxdrv.FlipBit(orig, b)) == origID {
+				descs = append(descs, SweepDesc{Mode: "sweep", Seed: seed, Bits: []int{b}, WithOrig: true})
+				continue
+			}
+			cur = append(cur, b)
+			if len(cur) == batch {
+				descs = append(descs, SweepDesc{Mode: "sweep", Seed: seed, Bits: cur, WithOrig: true})
+				cur = nil
+			}
+		}
+		if len(cur) > 0 {
+			descs = append(descs, SweepDesc{Mode: "sweep", Seed: seed, Bits: cur, WithOrig: true})
+		}
+		sum.Extra["bit_positions"] = nbits
+	}
+	nf := 0
+	for _, d := range descs {
+		coq, viols, finds := sweepBlock(d, sum)
+		sum.Evaluations++
+		sum.DistinctNontrivial++
+		if coq != "" {
+			w.Add(coq, map[string]any{"case": d})
+		}
+		sum.Sample(d, 2)
+		for _, v := range viols {
+			if len(sum.Violations) < 5 {
+				sum.Violations = append(sum.Violations, v)
+			}
+		}
+		nf += len(finds)
+		if len(finds) > 0 && len(sum.Findings) == 0 {
+			f := finds[0]
+			sum.Findings = append(sum.Findings, coqout.Finding{Key: f["key"].(string), What: f["what"].(string),
+				Replay: map[string]any{"case": f["case"], "tx": f["tx"], "orig": f["orig"]}})
+		}
+	}
+	sum.Extra["findings_seen"] = nf
+	sum.Extra["sweep_seconds"] = int(time.Since(t0).Seconds())
+	w.Close()
+	sum.Write(out)
 }
 
 func pick(o *runOut, key string) map[string]any {
@@ -1097,12 +1407,45 @@ func realPrepare(d *CtxDesc) (raw []byte, ok bool, unregistered bool) {
 }
 
 func ctxMain(seed uint64, out string, n int, replay *CtxDesc) {
+	if replay != nil && replay.Index < 0 {
+		replay = nil // a registry cross-check finding: run the whole stream again
+	}
 	hdr := "From Verif Require Import Lib.Base Auth.Model Auth.Corr Gen.SigContexts.\n"
 	w := coqout.NewWriter(out, hdr, "run_ctx chain_separator contexts", "obytes_eqb", 400)
 	sum := coqout.NewSummary("one case = (registered context of the regenerated list, optional WithSuffix argument of length 0/1/64/max/max+1/random, chain context unset or of length 1..64); non-trivial = PrepareSignerContext returned bytes; distinct = distinct (context, suffix, chain) triples")
 	ctxs, err := loadContexts()
 	if err != nil {
 		panic(err)
+	}
+	// cross-check of the go/ast list with the registry of the running process
+	// (hook go/common/crypto/signature/export_verif.go), taken before any WithSuffix call
+	if replay == nil {
+		byBase := map[string]jctx{}
+		for _, c := range ctxs {
+			byBase[c.Base] = c
+		}
+		seenRT := map[string]bool{}
+		for _, rc := range signature.VerifRegisteredContexts() {
+			seenRT[rc.Context] = true
+			c, ok := byBase[rc.Context]
+			switch {
+			case !ok:
+				sum.Violations = append(sum.Violations, map[string]any{
+					"what": fmt.Sprintf("context %q is registered at run time but was not found by the source walk (generator blind spot: its prefix-freeness is not covered by the proof)", rc.Context),
+					"case": CtxDesc{Mode: "ctx", Index: -1, Base: rc.Context}})
+			case c.Chain != rc.ChainSeparation || c.HasDyn != (rc.DynamicSuffix != "") || (c.HasDyn && (c.Suffix != rc.DynamicSuffix || c.MaxLen != rc.DynamicSuffixMaxLen)):
+				sum.Violations = append(sum.Violations, map[string]any{
+					"what": fmt.Sprintf("context %q: options at run time %+v differ from the source walk %+v", rc.Context, rc, c),
+					"case": CtxDesc{Mode: "ctx", Index: -1, Base: rc.Context}})
+			default:
+				sum.Count("registry", "run-time = source walk")
+			}
+		}
+		for _, c := range ctxs {
+			if !seenRT[c.Base] {
+				sum.Count("registry", "source walk only (package not linked into the harness)")
+			}
+		}
 	}
 	r := prng.New(seed)
 	var descs []CtxDesc
@@ -1278,6 +1621,8 @@ func main() {
 	blocks := flag.Int("blocks", 8, "blocks per history (deliver)")
 	txs := flag.Int("txs", 12, "maximum transactions per block (deliver)")
 	cases := flag.Int("cases", 200, "random cases (ctx)")
+	stride := flag.Int("stride", 1, "every stride-th bit position (sweep)")
+	batch := flag.Int("batch", 120, "alterations per block (sweep)")
 	replay := flag.String("replay", "", "replay a case description (JSON file)")
 	flag.Parse()
 	if *out == "" {
@@ -1286,6 +1631,7 @@ func main() {
 	}
 	var rd *Desc
 	var rc *CtxDesc
+	var rs *SweepDesc
 	if *replay != "" {
 		b, err := os.ReadFile(*replay)
 		if err != nil {
@@ -1301,7 +1647,13 @@ func main() {
 			Mode string `json:"mode"`
 		}
 		_ = json.Unmarshal(b, &probe)
-		if probe.Mode == "ctx" {
+		if probe.Mode == "sweep" {
+			rs = &SweepDesc{}
+			if err := json.Unmarshal(b, rs); err != nil {
+				panic(err)
+			}
+			*mode = "sweep"
+		} else if probe.Mode == "ctx" {
 			rc = &CtxDesc{}
 			if err := json.Unmarshal(b, rc); err != nil {
 				panic(err)
@@ -1317,6 +1669,10 @@ func main() {
 	}
 	if *mode == "ctx" {
 		ctxMain(*seed, *out, *cases, rc)
+		return
+	}
+	if *mode == "sweep" {
+		sweepMain(*seed, *out, *stride, *batch, rs)
 		return
 	}
 	hdr := "From Verif Require Import Lib.Base Auth.Model Auth.Corr Gen.SigContexts.\n"
@@ -1356,6 +1712,10 @@ func main() {
 			sum.Sample(b.desc, 3)
 		}
 		sum.Extra["findings_seen"] = sum.Extra["findings_seen"].(int) + len(o.findings)
+		for _, st := range o.stats {
+			parts := strings.SplitN(st, ":", 2)
+			sum.Count(parts[0], parts[1])
+		}
 		if len(o.findings) > 0 && len(sum.Findings) == 0 {
 			addFinding(sum, o.findings[0], rd == nil)
 		}
